@@ -8,64 +8,100 @@ Helper lemmas for C15: guard chains (`DashLive.Auth`) and the CSRF state machine
 /-! ## guard chains -/
 namespace DashLive.Auth
 
-theorem mem_allRoles (ρ : Role) : ρ ∈ allRoles := by
-  cases ρ <;> decide
-
 theorem mem_bools (b : Bool) : b ∈ bools := by
   cases b <;> decide
 
-theorem mem_allRequests (r : Request) : r ∈ allRequests := by
-  obtain ⟨a, b, c, d, e, f, g⟩ := r
-  simp only [allRequests, List.mem_flatMap, List.mem_map]
-  exact ⟨a, mem_bools a, b, mem_bools b, c, mem_bools c, d, mem_bools d, e, mem_bools e,
-    f, mem_bools f, g, mem_bools g, rfl⟩
+theorem mem_idents (u : Ident) : u ∈ idents := by
+  cases u <;> decide
 
-theorem evalChain_cons (g : Guard) (gs : List Guard) (ρ : Role) (r : Request) :
-    evalChain (g :: gs) ρ r =
-      (match guardVerdict g ρ r with
-       | .pass => evalChain gs ρ r
+theorem mem_tokens (t : Option Ident) : t ∈ tokens := by
+  cases t with
+  | none => simp [tokens]
+  | some u => simp [tokens, mem_idents u]
+
+theorem forallCreds_spec (p : Request → Bool) (h : forallCreds p = true)
+    (s : Ident) (t : Option Ident) (rf : Bool) (e : Ident) : p (credRequest s t rf e) = true := by
+  simp only [forallCreds, List.all_eq_true] at h
+  exact h s (mem_idents s) t (mem_tokens t) rf (mem_bools rf) e (mem_idents e)
+
+theorem existsCred_spec (p : Request → Bool) (h : existsCred p = true) : ∃ r, p r = true := by
+  simp only [existsCred, List.any_eq_true] at h
+  obtain ⟨s, _, t, _, rf, _, e, _, hp⟩ := h
+  exact ⟨_, hp⟩
+
+theorem evalChain_cons (g : Guard) (gs : List Guard) (r : Request) :
+    evalChain (g :: gs) r =
+      (match guardVerdict g r with
+       | .pass => evalChain gs r
        | v => v) := rfl
 
 /-- a chain passes exactly when every guard passes -/
-theorem evalChain_pass_iff (gs : List Guard) (ρ : Role) (r : Request) :
-    evalChain gs ρ r = .pass ↔ ∀ g ∈ gs, guardVerdict g ρ r = .pass := by
+theorem evalChain_pass_iff (gs : List Guard) (r : Request) :
+    evalChain gs r = .pass ↔ ∀ g ∈ gs, guardVerdict g r = .pass := by
   induction gs with
   | nil => simp [evalChain]
   | cons g gs ih =>
     rw [evalChain_cons]
-    cases h : guardVerdict g ρ r with
+    cases h : guardVerdict g r with
     | pass => simp [ih, h]
     | stop s => simp [h]
     | block => simp [h]
 
-theorem evalChain_append (as bs : List Guard) (ρ : Role) (r : Request) :
-    evalChain (as ++ bs) ρ r =
-      (match evalChain as ρ r with
-       | .pass => evalChain bs ρ r
-       | v => v) := by
-  induction as with
-  | nil => simp [evalChain]
+/-- monotonicity: a guard that lets `r` through lets the permissive request with the same
+credentials and target through (ajax, an existing target and a valid CSRF token never make a
+guard refuse) -/
+theorem guard_pass_mono (g : Guard) (r : Request) (h : guardVerdict g r = .pass) :
+    guardVerdict g r.permissive = .pass := by
+  obtain ⟨s, t, rf, c, d, e, f, k⟩ := r
+  cases g with
+  | loginRequired html admin perm =>
+    simp only [guardVerdict, Request.permissive, credRequest] at h ⊢
+    split at h
+    · cases c <;> cases html <;> simp [needsLogin] at h
+    · split at h
+      · cases c <;> cases html <;> simp [needsLogin] at h
+      · split at h
+        · cases c <;> cases html <;> simp [needsLogin] at h
+        · simp [*]
+  | jwtRequired a b => simpa [guardVerdict, Request.permissive, credRequest] using h
+  | jwtLoginRequired a b => simpa [guardVerdict, Request.permissive, credRequest] using h
+  | csrfDecorator svc n o => simp [guardVerdict, Request.permissive, credRequest]
+  | csrfBody svc => simp [guardVerdict, Request.permissive, credRequest]
+  | loader w => simp [guardVerdict, Request.permissive, credRequest]
+  | selfOrAdmin j => simpa [guardVerdict, Request.permissive, credRequest] using h
+  | spa => simp [guardVerdict, Request.permissive, credRequest]
+  | other n => rfl
+
+theorem evalChain_pass_mono (gs : List Guard) (r : Request) (h : evalChain gs r = .pass) :
+    evalChain gs r.permissive = .pass :=
+  (evalChain_pass_iff gs _).2 fun g hg => guard_pass_mono g r ((evalChain_pass_iff gs r).1 h g hg)
+
+theorem mayChange_permissive (k : Kind) (r : Request) : mayChange k r.permissive = mayChange k r := by
+  cases k <;> rfl
+
+/-- two requests on which every guard of the chain answers alike get the same verdict -/
+theorem evalChain_congr (gs : List Guard) (r r' : Request)
+    (h : ∀ g ∈ gs, guardVerdict g r = guardVerdict g r') : evalChain gs r = evalChain gs r' := by
+  induction gs with
+  | nil => rfl
   | cons g gs ih =>
-    rw [List.cons_append, evalChain_cons, evalChain_cons]
-    cases h : guardVerdict g ρ r with
-    | pass => simpa using ih
-    | stop s => rfl
-    | block => rfl
+    rw [evalChain_cons, evalChain_cons, h g (List.mem_cons_self ..),
+      ih (fun g' hg' => h g' (List.mem_cons_of_mem _ hg'))]
 
 /-- the literal decorator nest computes the same thing as the chain in execution order -/
-theorem decorate_eval {α : Type} (gs : List Guard) (body : View α) (ρ : Role) (r : Request) :
-    decorate gs body ρ r =
-      (match evalChain gs ρ r with
-       | .pass => body ρ r
+theorem decorate_eval {α : Type} (gs : List Guard) (body : View α) (r : Request) :
+    decorate gs body r =
+      (match evalChain gs r with
+       | .pass => body r
        | .stop s => .stopped s
        | .block => .blocked) := by
   induction gs with
   | nil => rfl
   | cons g gs ih =>
-    show wrap g (decorate gs body) ρ r = _
+    show wrap g (decorate gs body) r = _
     rw [evalChain_cons]
     unfold wrap
-    cases h : guardVerdict g ρ r with
+    cases h : guardVerdict g r with
     | pass => simpa using ih
     | stop s => rfl
     | block => rfl
